@@ -24,7 +24,8 @@ RULE = ("generated worksheets (harness-side mock of an openpyxl worksheet): 1-5 
         "readings in ONE process of sheets that are read again, edited in place (same worksheet object), re-ordered by columns or "
         "unrelated, with repeated cell texts and repeated rows, through iter_table / read_table / a shared XlsObjReadRules / shared "
         "XlsRecordAttrReadRules / one rules dict shared by several classes, and through the TableReader mixin (read_list, iter_xls, "
-        "read_map) of class hierarchies (derived classes overriding ATTR_RULES, _ATTRS order/subset, _NUM_ID_ATTRS, or nothing; base "
+        "read_map) of class hierarchies (derived classes overriding ATTR_RULES, _ATTRS order/subset, _NUM_ID_ATTRS, STOP_ON, LADDER_FORMAT, or "
+        "nothing; both end rules and ladder sheets through the mixin; base "
         "first, derived first, random order; unrelated classes), two generators advanced in turn (ladder readings in progress); "
         "between the readings the caller edits in place values it has been given (list.append, set.add, dict[k]=v, d[k].append on "
         "cell_list / cell_set / CellRangeDict / CellRangeSet / callable-default values, all of them or a subset, each with its own "
@@ -49,16 +50,14 @@ ASSUMPTIONS = [
     "(IndexError) but not claimed",
     "default values are plain immutable values, or callables returning them or a fresh list; one object class per table "
     "(iter_table/read_table/TableReader)",
-    "the TableReader mixin is read with the class attributes STOP_ON / LADDER_FORMAT at their defaults (iter_xls does not pass them "
-    "on: the mixin always reads with the default end rule and without ladder substitution)",
     "an XlsTableReader object is used for one reading (a second iter_table on the same object fails its own assertion: "
     "_ObjScrCellsMap.defaults_factories is never reset)",
 ]
 MODELLED = ("ak/xlsread.py: _CellReader/CellStr/CellInt/CellBool/CellList/CellSet, CellRangeDict/CellRangeSet, "
             "XlsObject.__init__/construct/get_attr_origin, XlsRecordAttrReadRules/XlsObjReadRules (rule shapes), "
             "_ObjScrCellsMap.bind_titles_row/cells_from_row, XlsTableReader.iter_table; sessions (Session.v): a reading is a function "
-            "of the sheet and of the rules of THAT call (for TableReader.iter_xls/read_list: the ATTR_RULES, _ATTRS, _NUM_ID_ATTRS of "
-            "the class that was asked, default end rule, no ladder), in-place edits of a produced value change that value only; "
+            "of the sheet and of the rules of THAT call (for TableReader.iter_xls/read_list: the ATTR_RULES, _ATTRS, _NUM_ID_ATTRS, STOP_ON "
+            "and LADDER_FORMAT of the class that was asked, own or inherited), in-place edits of a produced value change that value only; "
             "not modelled: incl_ws prefix, make_objects_map/ensure_equal (reference of the map-reading oracle clause), several "
             "object classes per table")
 
@@ -1364,10 +1363,15 @@ def _step_rules(case, st):
     return c["names"], c["nid"], [rd[n] for n in c["names"]]
 
 
-def _step_cfg(st):
-    # TableReader.iter_xls calls iter_table(worksheet, cls, cls.ATTR_RULES): default end rule, no ladder
+def _cls_cfg(c):
+    """effective (STOP_ON, LADDER_FORMAT) of a class record (TableReader's defaults when never set in the hierarchy)"""
+    return c.get("stop", "blank all"), bool(c.get("ladder", False))
+
+
+def _step_cfg(case, st):
+    # TableReader.iter_xls: iter_table(worksheet, cls, cls.ATTR_RULES, stop_on=cls.STOP_ON, ladder_format=cls.LADDER_FORMAT)
     if st["via"] in MIXIN_VIAS:
-        return "blank all", False
+        return _cls_cfg(case["classes"][st["cls"]])
     return st["stop"], bool(st["ladder"])
 
 
@@ -1384,12 +1388,17 @@ def _check_classes(case):
         if c["base"] is None:
             if not {"names", "nid"} <= set(c["own"]) or (c["mixin"] and "rules" not in c["own"]):
                 raise ValueError("ill-formed session: root class")
+            if ("stop" not in c["own"] and _cls_cfg(c)[0] != "blank all") or ("ladder" not in c["own"] and _cls_cfg(c)[1]):
+                raise ValueError("ill-formed session: root class setting not owned")
             continue
         if not 0 <= c["base"] < ci:
             raise ValueError("ill-formed session: base index")
         b = case["classes"][c["base"]]
         for key in ("names", "nid", "rules"):
             if key not in c["own"] and c[key] != b[key]:
+                raise ValueError(f"ill-formed session: class {ci} inherits {key} but differs")
+        for k, key in enumerate(("stop", "ladder")):
+            if key not in c["own"] and _cls_cfg(c)[k] != _cls_cfg(b)[k]:
                 raise ValueError(f"ill-formed session: class {ci} inherits {key} but differs")
         if "rules" in c["own"] and not _cls_root(case, ci)["mixin"]:
             raise ValueError("ill-formed session: ATTR_RULES on a class without the mixin")
@@ -1419,6 +1428,10 @@ class _Session:
                 d["_NUM_ID_ATTRS"] = c["nid"]
             if "rules" in c["own"]:
                 d["ATTR_RULES"] = self.mk_rules(c["rules"], c.get("rev", False))
+            if "stop" in c["own"]:
+                d["STOP_ON"] = _cls_cfg(c)[0]
+            if "ladder" in c["own"]:
+                d["LADDER_FORMAT"] = _cls_cfg(c)[1]
             if c["base"] is None:
                 bases = (xl.XlsObject, xl.TableReader) if c["mixin"] else (xl.XlsObject,)
             else:
@@ -1486,7 +1499,7 @@ class _Session:
         cls = self.classes[st["cls"]]
         ws = self.sheet(st)
         via = st["via"]
-        stop, ladder = _step_cfg(st)
+        stop, ladder = _step_cfg(self.case, st)
         if via == "mx_list":
             return lambda: cls.read_list(ws)
         if via == "mx_iter":
@@ -1519,7 +1532,7 @@ class _Session:
         xl = self.xl
         cls = self.classes[st["cls"]]
         ws = self.sheet(st)
-        stop, ladder = _step_cfg(st)
+        stop, ladder = _step_cfg(self.case, st)
         if st["via"] in MIXIN_VIAS:
             return lambda: cls.read_map(ws)
         rd = st.get("rules", self.case["classes"][st["cls"]]["rules"])
@@ -1600,6 +1613,8 @@ def _run_session(xl, case):
                 rec["objs"], rec["items"] = [], []
             if rec["st"].get("also_map"):
                 rec["map"] = _map_check(S, rec)
+            if rec["st"]["via"] in MIXIN_VIAS:
+                rec["direct"] = _direct_check(S, rec)
 
     i = 0
     while i < len(steps):
@@ -1620,8 +1635,42 @@ def _run_session(xl, case):
     reads = []
     for rec in recs:
         end = [None if o is None else _obs_obj(o, rec["names"], rec["st"]["qkeys"]) for o in rec["objs"]]
-        reads.append({"items": rec["items"], "err": rec["err"], "end": end, "cls_ok": rec["cls_ok"], "map": rec["map"]})
+        reads.append({"items": rec["items"], "err": rec["err"], "end": end, "cls_ok": rec["cls_ok"], "map": rec["map"],
+                      "direct": rec.get("direct")})
     return {"reads": reads}
+
+
+def _direct_check(S, rec):
+    """a mixin reading of class C must be iter_table(ws, C, C's rules, stop_on=C.STOP_ON, ladder_format=C.LADDER_FORMAT);
+    -> None | ["settings-ignored", text] (it is the direct reading with the DEFAULT settings instead) | ["differs", text]"""
+    st = rec["st"]
+    xl = S.xl
+    cls = S.classes[st["cls"]]
+    c = S.case["classes"][st["cls"]]
+    stop, ladder = _cls_cfg(c)
+    ws = S.sheet(st)
+    whole = st["via"] in WHOLE_VIAS
+
+    def direct(stop_, ladder_):
+        items, err = [], None
+        try:
+            for o in xl.iter_table(ws, cls, S.mk_rules(dict(c["rules"])), stop_on=stop_, ladder_format=ladder_):
+                items.append(None if o is None else _obs_obj(o, rec["names"], st["qkeys"]))
+        except BaseException as e:  # noqa
+            err = _exc(e)
+        if whole and err is not None:
+            items = []
+        return items, err
+    mine = (rec["items"], rec["err"])
+    want = direct(stop, ladder)
+    if mine == want:
+        return None
+    text = (f"class with STOP_ON={stop!r} LADDER_FORMAT={ladder}: the mixin reading gives {len(mine[0])} items (err {mine[1]}), "
+            f"iter_table with these arguments gives {len(want[0])} (err {want[1]}); first difference at item "
+            f"{next((i for i, (x, y) in enumerate(zip(mine[0], want[0])) if x != y), min(len(mine[0]), len(want[0])))}")
+    if (stop, ladder) != ("blank all", False) and mine == direct("blank all", False):
+        return ["settings-ignored", text + "; the mixin reading equals iter_table with the default stop_on / ladder_format"]
+    return ["differs", text]
 
 
 def _map_check(S, rec):
@@ -1695,7 +1744,7 @@ def _coq_session(case):
     for st in case["steps"]:
         if st["op"] == "read":
             _names, nid, rules = _step_rules(case, st)
-            stop, ladder = _step_cfg(st)
+            stop, ladder = _step_cfg(case, st)
             rows = "[" + "; ".join(share(_c_cvals(r), "w") for r in st["rows"]) + "]" if st["rows"] else "(@nil (list cval))"
             rl = "[" + "; ".join(share("(" + _c_rule(r) + ")", "u") for r in rules) + "]" if rules else "(@nil rule)"
             ops.append(f"ORead (mkConfig {share(rl, 'l')} {SX.cnat(nid)} {SX.cstr(stop)} {SX.cbool(ladder)}) {share(rows, 's')} "
@@ -1750,7 +1799,7 @@ def _oracle_session(case, obs):
             muts.setdefault((st["r"], st["j"], st["a"]), []).append((st.get("inner"), st["m"]))
     for r, (st, rd) in enumerate(zip(reads, obs["reads"])):
         names, nid, rules = _step_rules(case, st)
-        stop, ladder = _step_cfg(st)
+        stop, ladder = _step_cfg(case, st)
         tag = f"reading {r} ({st['via']}, class {st['cls']})"
         # (a) the property, on what the reading produced (as observed when it was produced)
         if not (st["via"] in WHOLE_VIAS and rd["err"] is not None):
@@ -1764,6 +1813,10 @@ def _oracle_session(case, obs):
         # (c) the map reading is the map of the list reading
         if rd["map"]:
             out.append(("map-reading", f"{tag}: {rd['map']}"))
+        # (c') the mixin reading is the direct reading with the class's own rules and settings
+        if rd.get("direct"):
+            sig = "mixin-ignores-stop-on-ladder" if rd["direct"][0] == "settings-ignored" else "mixin-direct"
+            out.append((sig, f"{tag}: {rd['direct'][1]}; rows={st['rows']!r}"))
         # (d) the values still are the conversions of the source cells after the caller edited OTHER values
         for j, (it0, it1) in enumerate(zip(rd["items"], rd["end"])):
             if it0 is None or it1 is None:
@@ -1961,7 +2014,7 @@ def _titles_of(rows):
 def gen_session_case(rng, flavour):
     hier = flavour == "hier"
     force = {}
-    if hier:
+    if hier and rng.random() < 0.35:
         force.update(ladder=False, stop="blank all")
     if rng.random() < 0.85:
         force["kinds"] = ["list", "set", "list", "set", "str", "int", "bool"]
@@ -2000,13 +2053,31 @@ def gen_session_case(rng, flavour):
                 "rules": dict(zip(names0, base["rules"])), "own": ["names", "nid", "rules"], "rev": rng.random() < 0.3}]
     if not classes[0]["mixin"]:
         classes[0]["own"] = ["names", "nid"]
+
+    def own_cfg(c, stop, ladder):
+        # STOP_ON / LADDER_FORMAT of a mixin class: usually what its sheet needs, sometimes only one of them / none (defaults)
+        for key, val in rng.choice([[("stop", stop), ("ladder", ladder)]] * 4 + [[("stop", stop)], [("ladder", ladder)], []]):
+            c[key] = val
+            c["own"].append(key)
+    if classes[0]["mixin"]:
+        own_cfg(classes[0], base["stop"], bool(base["ladder"]))
     titles0 = _titles_of(rows0)
     for _ in range(rng.choice([1, 2, 2, 3]) if hier else rng.choice([0, 0, 1, 2])):
         b = rng.randrange(len(classes))
         bc = classes[b]
         c = {"base": b, "mixin": bc["mixin"], "names": list(bc["names"]), "nid": bc["nid"], "rules": dict(bc["rules"]),
              "own": [], "rev": rng.random() < 0.3}
-        what = rng.choice(["rules", "rules", "rules", "attrs", "nid", "none", "rules+attrs", "rules+nid"])
+        c["stop"], c["ladder"] = _cls_cfg(bc)
+        what = rng.choice(["rules", "rules", "rules", "attrs", "nid", "none", "rules+attrs", "rules+nid", "cfg", "cfg", "rules+cfg"])
+        if "cfg" in what and _cls_root({"classes": classes + [c]}, len(classes))["mixin"]:
+            # a derived class with its own end rule / ladder setting
+            r = rng.random()
+            if r < 0.7:
+                c["ladder"] = not c["ladder"]
+                c["own"].append("ladder")
+            if r > 0.4:
+                c["stop"] = rng.choice([x for x in ("blank all", "blank first", "blank first", "") if x != c["stop"]])
+                c["own"].append("stop")
         if "rules" in what and _cls_root({"classes": classes + [c]}, len(classes))["mixin"]:
             ordered = [c["rules"][nm] for nm in c["names"]]
             extra = {nm: ru for nm, ru in c["rules"].items() if nm not in c["names"]}
@@ -2037,6 +2108,8 @@ def gen_session_case(rng, flavour):
             mixin = hier or rng.random() < 0.35
             classes.append({"base": None, "mixin": mixin, "names": nm, "nid": other["nid"], "rules": dict(zip(nm, other["rules"])),
                             "own": ["names", "nid", "rules"] if mixin else ["names", "nid"], "rev": False})
+            if mixin:
+                own_cfg(classes[-1], other["stop"], bool(other["ladder"]))
             sheets.append({"ws": 1, "rows": _dup_cells(rng, other["rows"]), "qkeys": other["qkeys"], "stop": other["stop"],
                            "ladder": other["ladder"], "root": len(classes) - 1})
     steps = []
@@ -2107,9 +2180,9 @@ def gen_session_case(rng, flavour):
                 st["rev"] = True
         if map_all or rng.random() < 0.1:
             st["also_map"] = True
-        if k + 1 < n_reads and st["via"] not in WHOLE_VIAS and rng.random() < (0.45 if _step_cfg(st)[1] else 0.2):
+        if k + 1 < n_reads and st["via"] not in WHOLE_VIAS and rng.random() < (0.45 if _step_cfg({"classes": classes}, st)[1] else 0.2):
             st["il"] = True
-        pair_next = bool(st.get("il")) and _step_cfg(st)[1]
+        pair_next = bool(st.get("il")) and _step_cfg({"classes": classes}, st)[1]
         steps.append(st)
         probe = {"classes": classes}
         _nm, _nid, rules = _step_rules(probe, st)
@@ -2146,7 +2219,10 @@ LEVEL_TEXT = ("Full (model level, all sheets / rule sets, unbounded rows and col
               "its rules alone gives), session_no_edits, session_edit_applied -- theorems about the model, in which values are fresh by "
               "construction; that ak/xlsread.py has no state between readings and shares no mutable value between objects / readings / "
               "class hierarchies is what the correspondence check on session cases compares (every object re-observed at the end of "
-              "the session) and what the oracle signatures shared-value, shared-origin, object-class, map-reading state directly.  "
+              "the session) and what the oracle signatures shared-value, shared-origin, object-class, map-reading state directly; a "
+              "mixin reading is modelled as the direct reading with the class's own (or inherited) ATTR_RULES, STOP_ON and LADDER_FORMAT "
+              "and is also compared in-process with iter_table called with exactly these (signatures mixin-ignores-stop-on-ladder -- "
+              "fixed finding, 357b521 -- and mixin-direct).  "
               "Tested only (correspondence + oracle, no theorem): that a reading raises only where a declared rule cannot be applied "
               "(oracle signature unexpected-error), that a row yields None only when its id values are all None (spurious-none), the "
               "incl_ws prefix (not modelled).  Theorems are about the Gallina model; its agreement with ak/xlsread.py is checked per "
